@@ -495,7 +495,7 @@ class PathChecker:
 
     def _counterexample(self, s, name, res):
         """s holds base+pc+axioms+violation and is sat.  Replay before reporting."""
-        if self.seen.get(name, 0) >= 2:
+        if self.seen.get(name, 0) >= 2 or self.reproduced >= 6:
             # this very obligation was already reproduced (twice) for this configuration: do not spend solver time again
             res['also_sat'].append(name)
             return
